@@ -1,7 +1,7 @@
 """C18 — correspondence of lean/PyramidModel/TopoSort.lean with pyramid.util.TopologicalSorter, with
 Tweens (implicit / explicit chains through a real Configurator + Router) and with the view-deriver
 pipeline; and the property itself evaluated on the implementation."""
-import itertools, json, sys, types
+import itertools, json, os, subprocess, sys, threading, types
 
 from pyramid.util import TopologicalSorter, FIRST, LAST
 from pyramid.exceptions import ConfigurationError, CyclicDependencyError
@@ -15,7 +15,7 @@ RULE = ('constraint graphs over up to 7 present names + 3 absent names + the two
         'distinct = distinct canonical case JSON.  Streams: direct TopologicalSorter; HISTORIES on one sorter (add / public '
         'remove / sorted() at arbitrary points, every answer judged against the declarations in force: all canonical '
         'histories of <= 5 ops over two names (with absent alternatives) and over three names + random ones over <= 5 names; a history is non-trivial when a present '
-        'name is removed or sorted() is asked at least twice); PREDICATE histories through the Configurator '
+        'name is removed or sorted() is asked at least twice); DETERMINISM across processes (the same sequences with >= 2 present, mutually unordered alternatives evaluated in child interpreters with PYTHONHASHSEED 0..3, outputs identical and equal to the model); PREDICATE histories through the Configurator '
         '(add_view/route/subscriber_predicate with weighs_more_than/weighs_less_than over several commits, re-adds with other '
         'hints or factories, a consumer committed in every round, the order PredicateList.make uses read back after '
         'every round); add_tween via Configurator '
@@ -1103,6 +1103,160 @@ def load_gen(ctx):
     return f
 
 
+# ---------------------------------------------------------------- DETERMINISM ACROSS PROCESSES
+# "... and is the same whenever the same additions are made": one process always agrees with itself, but an order that
+# depends on the iteration order of a set of strings changes with the per-process string hash seed.  The same addition
+# sequences are therefore evaluated in CHILD interpreters with PYTHONHASHSEED = 0, 1, 2, 3 (PYTHONPATH = the tree under
+# test; one child per seed evaluates the whole batch by importing this harness) and the outputs must be identical -
+# and equal to the model's order.  A case carries 'det': 'direct' | 'tweens' | 'derivers'.
+DET_SEEDS = (0, 1, 2, 3)
+_DET_CHILD = r"""
+import sys, json, importlib.util
+src, verif = sys.argv[1], sys.argv[2]
+sys.path[:0] = [src, verif + '/lib', verif]
+import warnings; warnings.simplefilter('ignore')
+spec = importlib.util.spec_from_file_location('harness_c18_child', verif + '/harness/c18.py')
+h = importlib.util.module_from_spec(spec); sys.modules['harness_c18_child'] = h; spec.loader.exec_module(h)
+data = json.load(sys.stdin)
+out = []
+for c in data['cases']:
+    try:
+        out.append(h.det_eval(c, data['gen']))
+    except Exception as e:
+        out.append({'raised': type(e).__name__ + ': ' + str(e)[:100]})
+sys.stdout.write('\nC18DET ' + json.dumps(out) + '\n')
+"""
+
+
+def det_eval(case, gen):
+    """what one process observes for one determinism case (canonical, JSON)"""
+    kind = case['det']
+    if kind == 'direct':
+        return impl_direct(case)['result']
+    if kind == 'tweens':
+        g = impl_tweens(case)
+        return {'result': g['result'], 'implicit': g.get('implicit'), 'trace': g.get('trace')}
+    g = impl_derivers(case, gen)
+    return {'result': g['result'], 'order': g.get('order'), 'enters': g.get('enters')}
+
+
+def det_fixed_cases(gen):
+    """items whose after= / before= list has >= 2 alternatives that are all present and mutually unordered: the order in
+    which the alternatives become ready is decided by the order of the arcs, i.e. by how the list is iterated"""
+    cases = []
+    for fl in ('plain', 'tween'):
+        for k in (2, 3, 4, 5):
+            alts = list(range(3, 3 + k))
+            others = [[n, None, None, False, False] for n in alts]
+            for side in ('before', 'after', 'both'):
+                op = [2, alts if side in ('after', 'both') else None, alts[::-1] if side == 'before' else (alts if side == 'both' and k == 2 else None), False, False]
+                if side == 'both':
+                    op = [2, alts[:k // 2 + 1], alts[k // 2 + 1:] or None, False, False]
+                cases.append({'det': 'direct', 'flavour': fl, 'ops': [op] + others})
+                cases.append({'det': 'direct', 'flavour': fl, 'ops': others + [op]})
+        # two items naming the same alternatives, in opposite order
+        cases.append({'det': 'direct', 'flavour': fl, 'ops': [[2, None, [4, 5, 6], False, False], [3, None, [6, 5, 4], False, False],
+                                                          [4, None, None, False, False], [5, None, None, False, False], [6, None, None, False, False]]})
+    for k in (2, 3, 4):
+        alts = list(range(3, 3 + k))
+        others = [[n, None, None, False, False] for n in alts]
+        cases.append({'det': 'tweens', 'flavour': 'tween', 'explicit': [], 'ops': others + [[2, None, alts, False, False]]})
+        cases.append({'det': 'tweens', 'flavour': 'tween', 'explicit': [], 'ops': [[2, alts, None, False, False]] + others})
+    nd = len(gen['deriver_names'])
+    if nd >= 5:
+        cases.append({'det': 'derivers', 'flavour': 'deriver', 'ops': [[2, None, [22, 23, 24], False, False]]})
+        cases.append({'det': 'derivers', 'flavour': 'deriver', 'ops': [[2, [20, 21], [23, 24], False, False]]})
+        cases.append({'det': 'derivers', 'flavour': 'deriver', 'ops': [[3, None, None, False, False], [4, None, None, False, False], [2, [3, 4], None, False, False]]})
+        cases.append({'det': 'derivers', 'flavour': 'deriver', 'ops': [[3, None, None, False, False], [4, None, None, False, False], [5, None, None, False, False],
+                                                                     [2, None, [5, 4, 3], False, False]]})
+    return cases
+
+
+def det_random_cases(rng, n, gen):
+    out = []
+    for _ in range(n):
+        r = rng.random()
+        if r < 0.7:
+            c = gen_case(rng, maxnames=6)
+            if any((o[1] and len(o[1]) > 1) or (o[2] and len(o[2]) > 1) for o in c['ops']):
+                out.append(dict(c, det='direct'))
+        elif r < 0.85:
+            out.append(dict(gen_tween_case(rng), det='tweens', explicit=[]))
+        else:
+            out.append(dict(gen_deriver_case(rng, gen), det='derivers'))
+    return out
+
+
+def det_children(ctx, cases, gen):
+    """{seed: [output per case] | None}"""
+    payload = json.dumps({'cases': cases, 'gen': {'deriver_names': gen['deriver_names']}}).encode()
+    res = {}
+
+    def one(seed):
+        try:
+            env = dict(os.environ, PYTHONHASHSEED=str(seed), PYTHONPATH=ctx.src)
+            p = subprocess.run([sys.executable, '-c', _DET_CHILD, ctx.src, ctx.verif], input=payload, stdout=subprocess.PIPE,
+                               stderr=subprocess.PIPE, env=env, timeout=300)
+            lines = [l for l in p.stdout.decode(errors='replace').splitlines() if l.startswith('C18DET ')]
+            res[seed] = json.loads(lines[-1][len('C18DET '):]) if lines else None
+            if not lines:
+                res['err%d' % seed] = p.stderr.decode(errors='replace')[-300:]
+        except Exception as e:
+            res[seed] = None
+            res['err%d' % seed] = '%s: %s' % (type(e).__name__, e)
+    ts = [threading.Thread(target=one, args=(sd,)) for sd in DET_SEEDS]
+    for t in ts: t.start()
+    for t in ts: t.join()
+    return res
+
+
+def det_model(ctx, cases, gen):
+    if not ctx.driver_path:
+        return [None] * len(cases)
+    inputs = []
+    for c in cases:
+        if c['det'] == 'direct':
+            inputs.append(model_case(c))
+        elif c['det'] == 'tweens':
+            inputs.append(model_tween_case(c))
+        else:
+            inputs.append({'first': 0, 'last': 1, 'defBefore': None, 'defAfter': [0], 'explicit': [], 'ops': deriver_model_ops(c, gen)})
+    return ctx.run_model(inputs)
+
+
+def det_check(ctx, cases, gen):
+    """-> (violations, mismatches, note)"""
+    if not cases:
+        return [], [], None
+    res = det_children(ctx, cases, gen)
+    if any(res.get(sd) is None or len(res[sd]) != len(cases) for sd in DET_SEEDS):
+        return [], [], 'determinism check could not run in child interpreters: %s' % {k: v for k, v in res.items() if str(k).startswith('err')}
+    mos = det_model(ctx, cases, gen)
+    viol, mism = [], []
+    for i, c in enumerate(cases):
+        outs = {sd: res[sd][i] for sd in DET_SEEDS}
+        base = outs[DET_SEEDS[0]]
+        diff = [sd for sd in DET_SEEDS[1:] if outs[sd] != base]
+        if diff:
+            viol.append({'case': c, 'stream': 'determinism', 'impl': {'PYTHONHASHSEED=%d' % DET_SEEDS[0]: base, 'PYTHONHASHSEED=%d' % diff[0]: outs[diff[0]]},
+                         'expected': 'the same order in every process',
+                         'detail': 'the same additions give a different order under PYTHONHASHSEED=%d and PYTHONHASHSEED=%d' % (DET_SEEDS[0], diff[0])})
+            continue
+        mo = mos[i]
+        if mo is not None:
+            if c['det'] == 'direct':
+                ok = base == mo['result']
+            elif base.get('result') != 'ok':
+                ok = True          # outcome kinds are compared by the configurator streams
+            elif c['det'] == 'tweens':
+                ok = 'ok' in mo['result'] and base.get('implicit') == mo['result']['ok']
+            else:
+                ok = 'ok' in mo['result'] and base.get('order') == mo['result']['ok']
+            if not ok:
+                mism.append({'case': c, 'impl': base, 'model': mo.get('result'), 'stream': 'determinism'})
+    return viol, mism, None
+
+
 # ---------------------------------------------------------------- entry points
 def check_direct(case, mo):
     got = impl_direct(case)
@@ -1171,7 +1325,7 @@ def run(ctx):
                 nontriv.add(key)
 
     # 1. direct sorter: corpus, then exhaustive insertion orders of small graphs, then random
-    cases = [c for _, c in ctx.corpus() if c.get('flavour') in ('plain', 'tween') and 'stream' not in c and 'ops' in c and 'hops' not in c]
+    cases = [c for _, c in ctx.corpus() if c.get('flavour') in ('plain', 'tween') and 'stream' not in c and 'ops' in c and 'hops' not in c and not c.get('det')]
     ncorp = len(cases)
     n = ctx.n(4000, 150000)
     cases += [gen_case(rng) for _ in range(n)]
@@ -1188,6 +1342,15 @@ def run(ctx):
         if any((o[1] and len(o[1]) > 1) or (o[2] and len(o[2]) > 1) for o in case['ops']): dist['alternative_lists'] += 1
         if any((o[1] and (0 in o[1] or 1 in o[1])) or (o[2] and (0 in o[2] or 1 in o[2])) for o in case['ops']): dist['sentinel_constraints'] += 1
     samples = cases[ncorp:ncorp + 3]
+
+    # 1a. determinism across processes (child interpreters with PYTHONHASHSEED 0..3): a small fixed scope + a few random
+    detc = [c for _, c in ctx.corpus() if c.get('det')] + det_fixed_cases(gen) + det_random_cases(rng, ctx.n(40, 400), gen)
+    dv, dm, dnote = det_check(ctx, detc, gen)
+    viol += dv[:3]
+    mism += dm
+    agree += len(detc) - len(dm) - len(dv) if (ctx.driver_path and dnote is None) else 0
+    dist['determinism_cases'] = len(detc)
+    det_note = dnote
 
     # 1b. histories on one long-lived sorter (add / public remove / sorted() at arbitrary points): corpus, every
     # canonical history of <= 5 ops over two names (with absent alternatives) and over three names (none / after y /
@@ -1304,9 +1467,9 @@ def run(ctx):
         account('derivers', case, got)
     samples += dcases[1:2]
 
-    total = len(cases) + len(tcases) + len(dcases) + len(hcases) + len(hist) + len(pcases)
+    total = len(cases) + len(tcases) + len(dcases) + len(hcases) + len(hist) + len(pcases) + len(detc)
     excl = {'flavour': 'plain', 'ops': [[2, [], None, False, False], [2, None, [1], False, True]]}
-    notes = ['excluded point (Props.C18.empty_alternatives_excluded) replayed on the real code: %s' % json.dumps(impl_direct(excl)['result']),
+    notes = ([det_note] if det_note else []) + ['excluded point (Props.C18.empty_alternatives_excluded) replayed on the real code: %s' % json.dumps(impl_direct(excl)['result']),
              'excluded point: an EMPTY alternatives list (after=[] / before=[]) can never be satisfied and leaves a stale '
              'requirement behind when the name is re-added (remove() tests `if after:`); outside the property domain '
              '(every constraint names at least one item)']
@@ -1322,6 +1485,13 @@ def search(ctx):
     a sentinel, an absent name, a 2-alternative list}, both flavours, all insertion orders"""
     viol, n = [], 0
     import time
+    # determinism across processes: the fixed scope and 300 random sequences with alternative lists
+    gen0 = load_gen(ctx)
+    detc = det_fixed_cases(gen0) + det_random_cases(ctx.rng, 300, gen0)
+    dv, _, _ = det_check(ctx, detc, gen0)
+    n += len(detc)
+    if dv:
+        return {'violations': dv[:3], 'searched': n, 'exhaustive': False}
     # histories: every canonical sequence of <= 5 ops over {add x with none / after y / before y / after (absent, y) /
     # before (absent, y), remove x, sorted} for two names (both flavours) and three names; judged at every sorted() in it
     hstop = time.time() + (40 if ctx.tier == 'quick' else 400)
@@ -1400,6 +1570,12 @@ def replay(ctx, rep):
     if case is None:
         return {'violates': False, 'note': 'replay names broken obligations only', 'broken': rep.get('broken_obligations')}
     stream = rep.get('stream') or ('history' if 'hops' in case else 'derivers' if case.get('flavour') == 'deriver' else 'tween-history' if 'rounds' in case else 'tweens' if 'explicit' in case else 'direct')
+    if case.get('det'):
+        gen = load_gen(ctx)
+        dv, dm, dnote = det_check(ctx, [case], gen)
+        children = det_children(ctx, [case], gen)
+        return {'case': case, 'stream': 'determinism', 'impl': {('PYTHONHASHSEED=%s' % k): (v[0] if v else None) for k, v in children.items() if k in DET_SEEDS},
+                'mismatch': dm[0] if dm else None, 'violation': dv[0] if dv else None, 'note': dnote, 'violates': bool(dv)}
     if 'hops' in case:
         stream = 'history'
         mo = ctx.run_model([model_history(case)])[0] if ctx.driver_path else None
